@@ -8,6 +8,8 @@ import Mathlib.Analysis.SpecialFunctions.Complex.Circle
 import Mathlib.Tactic.Ring
 import Mathlib.Tactic.Linarith
 import Mathlib.Tactic.FieldSimp
+import Mathlib.Algebra.Field.GeomSum
+import Mathlib.Analysis.SpecialFunctions.Complex.Log
 
 namespace TPV.Fourier
 open Finset
@@ -338,5 +340,276 @@ theorem invFrom_phase (i N a : ℕ) (hN : 0 < N) : ∀ (pre : List ℕ) (last s 
         have : i - s = (i - (s + 1)) + 1 := by omega
         rw [this, List.cons_append, List.getElem?_cons_succ] at h; exact h
       rw [invAxis_phase_other (by omega), invFrom_phase i N a hN pre last (s + 1) _ (by omega) h']
+
+
+/-! ### orthogonality of characters, spectrum of a band-limited signal (for resolution consistency) -/
+
+theorem E_pow (N d j : ℕ) : E N (d * j) = (E N d) ^ j := by
+  induction j with
+  | zero => simp [E_zero]
+  | succ j ih => rw [Nat.mul_succ, E_add, ih, pow_succ]
+
+theorem E_pow_N (N d : ℕ) (hN : 0 < N) : (E N d) ^ N = 1 := by
+  rw [← E_pow]
+  have := E_period N 0 d hN
+  rw [Nat.zero_add] at this
+  rw [Nat.mul_comm, this, E_zero]
+
+theorem E_ne_one (N d : ℕ) (hd : 0 < d) (hdN : d < N) : E N d ≠ 1 := by
+  intro h
+  rw [E, Complex.exp_eq_one_iff] at h
+  obtain ⟨q, hq⟩ := h
+  rw [ang_real] at hq
+  have hN' : (N : ℝ) ≠ 0 := by
+    have : 0 < N := by omega
+    exact_mod_cast this.ne'
+  -- compare imaginary parts: 2π d / N = q 2π
+  have him := congrArg Complex.im hq
+  simp at him
+  have hpi : Real.pi ≠ 0 := Real.pi_ne_zero
+  have hd' : (d : ℝ) = q * N := by
+    field_simp at him
+    linarith
+  have hdz : (d : ℤ) = q * N := by exact_mod_cast hd'
+  have hq1 : 0 < q := by
+    by_contra hneg
+    have : q ≤ 0 := by omega
+    have : q * (N : ℤ) ≤ 0 := Int.mul_nonpos_of_nonpos_of_nonneg this (by omega)
+    omega
+  have : (N : ℤ) ≤ q * N := by nlinarith
+  omega
+
+/-- orthogonality of the characters of ℤ/N: `Σ_{j<N} exp(2πi d j/N) = N` if `d = 0`, `0` for `0 < d < N` -/
+theorem geom_E (N d : ℕ) (hdN : d < N) :
+    ∑ j ∈ range N, E N (d * j) = if d = 0 then (N : ℂ) else 0 := by
+  have hN : 0 < N := by omega
+  split
+  · next h => subst h; simp [E_zero]
+  · next h =>
+    simp only [E_pow]
+    rw [geom_sum_eq (E_ne_one N d (by omega) hdN), E_pow_N N d hN]; simp
+
+theorem geom_E_inv (N d : ℕ) (hdN : d < N) :
+    ∑ j ∈ range N, (E N (d * j))⁻¹ = if d = 0 then (N : ℂ) else 0 := by
+  have hN : 0 < N := by omega
+  split
+  · next h => subst h; simp [E_zero]
+  · next h =>
+    simp only [E_pow, ← inv_pow]
+    have h1 : (E N d)⁻¹ ≠ 1 := by
+      intro h'; exact E_ne_one N d (by omega) hdN (inv_eq_one.mp h')
+    rw [geom_sum_eq h1, inv_pow, E_pow_N N d hN]; simp
+
+
+theorem E_eq (N m : ℕ) : E N m = ((Real.cos (ang N m : ℝ) : ℝ) : ℂ) + ((Real.sin (ang N m : ℝ) : ℝ) : ℂ) * Complex.I := by
+  rw [E, Complex.exp_mul_I, Complex.ofReal_cos, Complex.ofReal_sin]
+
+theorem E_inv_eq (N m : ℕ) : (E N m)⁻¹ = ((Real.cos (ang N m : ℝ) : ℝ) : ℂ) - ((Real.sin (ang N m : ℝ) : ℝ) : ℂ) * Complex.I := by
+  rw [E, ← Complex.exp_neg, ← neg_mul, Complex.exp_mul_I, Complex.cos_neg, Complex.sin_neg,
+    Complex.ofReal_cos, Complex.ofReal_sin]
+  ring
+
+/-- `a_p - i b_p`: twice the complex Fourier coefficient of `a_p cos + b_p sin` -/
+noncomputable def gam (a b : ℕ → ℝ) (p : ℕ) : ℂ := (a p : ℂ) - (b p : ℂ) * Complex.I
+noncomputable def gamc (a b : ℕ → ℝ) (p : ℕ) : ℂ := (a p : ℂ) + (b p : ℂ) * Complex.I
+
+theorem trigPoly_C (a b : ℕ → ℝ) (B N j : ℕ) :
+    ((trigPoly a b B N j : ℝ) : ℂ)
+      = ∑ p ∈ range (B + 1), (gam a b p * E N (p * j) + gamc a b p * (E N (p * j))⁻¹) / 2 := by
+  simp only [trigPoly, sumTo_eq]
+  push_cast
+  refine Finset.sum_congr rfl (fun p _ => ?_)
+  rw [E_inv_eq, E_eq]
+  simp only [gam, gamc, Trig.cos, Trig.sin]
+  linear_combination ((b p : ℂ) * ((Real.sin (ang N (p * j) : ℝ) : ℝ) : ℂ)) * Complex.I_sq
+
+theorem ortho1 (N p k : ℕ) (hp : p < N) (hk : k < N) :
+    ∑ j ∈ range N, E N (p * j) * (E N (j * k))⁻¹ = if p = k then (N : ℂ) else 0 := by
+  rcases Nat.lt_or_ge p k with h | h
+  · have hne : p ≠ k := by omega
+    rw [if_neg hne]
+    have := geom_E_inv N (k - p) (by omega)
+    rw [if_neg (by omega)] at this
+    rw [← this]
+    refine Finset.sum_congr rfl (fun j _ => ?_)
+    have e : j * k = (k - p) * j + p * j := by
+      rw [← Nat.add_mul, Nat.sub_add_cancel (by omega), Nat.mul_comm]
+    rw [e, E_add]
+    have h1 := E_ne_zero N (p * j); have h2 := E_ne_zero N ((k - p) * j)
+    field_simp
+  · have := geom_E N (p - k) (by omega)
+    have hiff : (p - k = 0) ↔ p = k := by omega
+    simp only [hiff] at this
+    rw [← this]
+    refine Finset.sum_congr rfl (fun j _ => ?_)
+    have e : p * j = (p - k) * j + j * k := by
+      rw [Nat.mul_comm j k, ← Nat.add_mul, Nat.sub_add_cancel h]
+    rw [e, E_add]
+    have h1 := E_ne_zero N (j * k)
+    field_simp
+
+theorem ortho2 (N p k : ℕ) (hpk : p + k < N) :
+    ∑ j ∈ range N, (E N (p * j))⁻¹ * (E N (j * k))⁻¹ = if p + k = 0 then (N : ℂ) else 0 := by
+  rw [← geom_E_inv N (p + k) hpk]
+  refine Finset.sum_congr rfl (fun j _ => ?_)
+  rw [Nat.add_mul, E_add, Nat.mul_comm k j, mul_inv]
+
+/-- the DFT of a band-limited signal (band `B`, `2B < N`) at the bins `k ≤ N/2` of the half spectrum:
+    `N a₀` at `k = 0`, `N/2 (a_k - i b_k)` for `1 ≤ k ≤ B`, `0` above the band -/
+theorem spectrum_trigPoly (a b : ℕ → ℝ) (B N k : ℕ) (hB : 2 * B < N) (hk : k < N / 2 + 1) :
+    ∑ j ∈ range N, (E N (j * k))⁻¹ * ((trigPoly a b B N j : ℝ) : ℂ)
+      = (N : ℂ) / 2 * ((if k ≤ B then gam a b k else 0) + (if k = 0 then gamc a b 0 else 0)) := by
+  simp only [trigPoly_C, Finset.mul_sum]
+  rw [Finset.sum_comm]
+  have hterm : ∀ p ∈ range (B + 1),
+      ∑ j ∈ range N, (E N (j * k))⁻¹ * ((gam a b p * E N (p * j) + gamc a b p * (E N (p * j))⁻¹) / 2)
+        = gam a b p / 2 * (if p = k then (N : ℂ) else 0) + gamc a b p / 2 * (if p + k = 0 then (N : ℂ) else 0) := by
+    intro p hp
+    have hp' : p < B + 1 := Finset.mem_range.mp hp
+    rw [← ortho1 N p k (by omega) (by omega), ← ortho2 N p k (by omega), Finset.mul_sum, Finset.mul_sum,
+      ← Finset.sum_add_distrib]
+    refine Finset.sum_congr rfl (fun j _ => ?_)
+    ring
+  rw [Finset.sum_congr rfl hterm, Finset.sum_add_distrib]
+  have s1 : ∑ p ∈ range (B + 1), gam a b p / 2 * (if p = k then (N : ℂ) else 0)
+      = (N : ℂ) / 2 * (if k ≤ B then gam a b k else 0) := by
+    have : ∀ p ∈ range (B + 1), gam a b p / 2 * (if p = k then (N : ℂ) else 0)
+        = if p = k then gam a b p / 2 * N else 0 := by
+      intro p _; split <;> simp
+    rw [Finset.sum_congr rfl this, Finset.sum_ite_eq']
+    by_cases h : k ≤ B
+    · have : k ∈ range (B + 1) := Finset.mem_range.mpr (by omega)
+      rw [if_pos this, if_pos h]; ring
+    · have : k ∉ range (B + 1) := by simp; omega
+      rw [if_neg this, if_neg h]; simp
+  have s2 : ∑ p ∈ range (B + 1), gamc a b p / 2 * (if p + k = 0 then (N : ℂ) else 0)
+      = (N : ℂ) / 2 * (if k = 0 then gamc a b 0 else 0) := by
+    by_cases h : k = 0
+    · subst h
+      have : ∀ p ∈ range (B + 1), gamc a b p / 2 * (if p + 0 = 0 then (N : ℂ) else 0)
+          = if p = 0 then gamc a b p / 2 * N else 0 := by
+        intro p _; simp only [Nat.add_zero]; split <;> simp
+      rw [Finset.sum_congr rfl this, Finset.sum_ite_eq']
+      have : (0 : ℕ) ∈ range (B + 1) := Finset.mem_range.mpr (by omega)
+      rw [if_pos this, if_pos rfl]; ring
+    · have : ∀ p ∈ range (B + 1), gamc a b p / 2 * (if p + k = 0 then (N : ℂ) else 0) = 0 := by
+        intro p _; rw [if_neg (by omega)]; simp
+      rw [Finset.sum_congr rfl this, if_neg h]; simp
+  rw [s1, s2]; ring
+
+/-! ### the one-dimensional layer on band-limited inputs -/
+
+/-- the one-dimensional spectral convolution, unfolded: bins `k < min(m, N/2+1)` are multiplied by the
+    kernel, the others are dropped -/
+theorem spectral_1d (N m : ℕ) (kern : Idx → Cx ℝ) (x : Idx → ℝ) (n : Idx) :
+    spectral [] N [m] kern x n = (1 / (N : ℝ)) * ∑ k ∈ range (N / 2 + 1), c2rTerm N k (n 0)
+      (if k < m then (fwdAxis 0 N (fun j => Cx.ofReal (x j)) (upd n 0 k)).mul (kern (upd n 0 k)) else Cx.zero) := by
+  simp only [spectral, fwdFrom, invFrom, c2rAxis, specShape, List.nil_append, resize, inBox, sumTo_eq,
+    Bool.and_true, upd_same, one_real, ofNat_real]
+  congr 1
+  refine Finset.sum_congr rfl (fun k hk => ?_)
+  have hk' : k < N / 2 + 1 := Finset.mem_range.mp hk
+  by_cases hm : k < m <;> simp [hk', hm]
+
+theorem fwdAxis_toC (N : ℕ) (x : Idx → ℝ) (k : Idx) :
+    toC (fwdAxis 0 N (fun j => Cx.ofReal (x j)) k) = ∑ j ∈ range N, (E N (j * k 0))⁻¹ * ((x (upd k 0 j) : ℝ) : ℂ) := by
+  simp [fwdAxis, toC_csumTo]
+
+theorem c2rTerm_mid (N k n : ℕ) (z : Cx ℝ) (h0 : k ≠ 0) (hny : 2 * k ≠ N) :
+    c2rTerm N k n z = 2 * (E N (k * n) * toC z).re := by
+  simp only [c2rTerm, h0, hny, if_false, two_real]
+  rw [← toC_tw, ← toC_mul]; rfl
+
+theorem c2rTerm_zero (N k n : ℕ) : c2rTerm N k n (Cx.zero : Cx ℝ) = 0 := by
+  simp only [c2rTerm, Cx.zero, Cx.mul, zero_real, two_real]
+  split
+  · rfl
+  · split <;> simp
+
+/-- the value at `t = n/N` of the Fourier multiplier with symbol `K` applied to the trigonometric polynomial
+    with coefficients `a, b` (band `B`): it depends on the grid only through the position `n/N` -/
+noncomputable def multiplier (a b : ℕ → ℝ) (B : ℕ) (K : ℕ → Cx ℝ) (N n : ℕ) : ℝ :=
+  ∑ k ∈ range (B + 1), if k = 0 then a 0 * (K 0).re else (E N (k * n) * (gam a b k * toC (K k))).re
+
+/-- On a band-limited input (band `B` below the Nyquist frequency of the grid and below the number `m` of
+    kept modes) the spectral convolution IS the Fourier multiplier. -/
+theorem spectral_trigPoly (a b : ℕ → ℝ) (B N m : ℕ) (hB : 2 * B < N) (hm : B < m) (kern : Idx → Cx ℝ) (n : Idx) :
+    spectral [] N [m] kern (fun j => trigPoly a b B N (j 0)) n
+      = multiplier a b B (fun k => kern (upd n 0 k)) N (n 0) := by
+  have hN : (N : ℝ) ≠ 0 := by
+    have : 0 < N := by omega
+    exact_mod_cast this.ne'
+  rw [spectral_1d, multiplier]
+  have hsub : range (B + 1) ⊆ range (N / 2 + 1) := by
+    intro k hk
+    have := Finset.mem_range.mp hk
+    exact Finset.mem_range.mpr (by omega)
+  rw [← Finset.sum_subset hsub, Finset.mul_sum]
+  · refine Finset.sum_congr rfl (fun k hk => ?_)
+    have hk' : k < B + 1 := Finset.mem_range.mp hk
+    have hkm : k < m := by omega
+    rw [if_pos hkm]
+    have hS := spectrum_trigPoly a b B N k hB (by omega)
+    have hz : toC ((fwdAxis 0 N (fun j => Cx.ofReal (trigPoly a b B N (j 0))) (upd n 0 k)).mul (kern (upd n 0 k)))
+        = (N : ℂ) / 2 * ((if k ≤ B then gam a b k else 0) + (if k = 0 then gamc a b 0 else 0)) * toC (kern (upd n 0 k)) := by
+      rw [toC_mul, fwdAxis_toC]
+      simp only [upd_same]
+      rw [hS]
+    by_cases h0 : k = 0
+    · subst h0
+      simp only [if_true]
+      have : c2rTerm N 0 (n 0) ((fwdAxis 0 N (fun j => Cx.ofReal (trigPoly a b B N (j 0))) (upd n 0 0)).mul (kern (upd n 0 0)))
+          = (toC ((fwdAxis 0 N (fun j => Cx.ofReal (trigPoly a b B N (j 0))) (upd n 0 0)).mul (kern (upd n 0 0)))).re := by
+        show (if (0 : ℕ) = 0 then _ else _) = _
+        rw [if_pos rfl]; rfl
+      rw [this, hz]
+      simp only [Nat.zero_le, if_true, gam, gamc]
+      have : (N : ℂ) / 2 * ((a 0 : ℂ) - (b 0 : ℂ) * Complex.I + ((a 0 : ℂ) + (b 0 : ℂ) * Complex.I)) * toC (kern (upd n 0 0))
+          = ((N * a 0 : ℝ) : ℂ) * toC (kern (upd n 0 0)) := by push_cast; ring
+      rw [this, Complex.re_ofReal_mul, toC_re]
+      field_simp
+    · rw [if_neg h0, c2rTerm_mid N k (n 0) _ h0 (by omega), hz, if_pos (by omega), if_neg h0, add_zero]
+      have : E N (k * n 0) * ((N : ℂ) / 2 * gam a b k * toC (kern (upd n 0 k)))
+          = ((N / 2 : ℝ) : ℂ) * (E N (k * n 0) * (gam a b k * toC (kern (upd n 0 k)))) := by push_cast; ring
+      rw [this, Complex.re_ofReal_mul]
+      field_simp
+  · intro k hk hkB
+    have hk' : k < N / 2 + 1 := Finset.mem_range.mp hk
+    have hkB' : ¬ k ≤ B := by
+      intro h; exact hkB (Finset.mem_range.mpr (by omega))
+    by_cases hkm : k < m
+    · rw [if_pos hkm]
+      have hS := spectrum_trigPoly a b B N k hB hk'
+      rw [if_neg hkB', if_neg (by omega)] at hS
+      have hz : (fwdAxis 0 N (fun j => Cx.ofReal (trigPoly a b B N (j 0))) (upd n 0 k)).mul (kern (upd n 0 k)) = Cx.zero := by
+        apply toC_inj
+        rw [toC_mul, fwdAxis_toC]
+        simp only [upd_same]
+        rw [hS]; simp
+      rw [hz, c2rTerm_zero]
+    · rw [if_neg hkm, c2rTerm_zero]
+
+/-! ### refining the grid -/
+
+theorem ang_refine (N r m : ℕ) (hr : 0 < r) : (ang (r * N) (r * m) : ℝ) = ang N m := by
+  have hr' : (r : ℝ) ≠ 0 := by exact_mod_cast hr.ne'
+  rw [ang_real, ang_real]
+  push_cast
+  rw [show 2 * Real.pi * ((r : ℝ) * m) = r * (2 * Real.pi * m) by ring, mul_div_mul_left _ _ hr']
+
+theorem E_refine (N r m : ℕ) (hr : 0 < r) : E (r * N) (r * m) = E N m := by
+  rw [E, E, ang_refine N r m hr]
+
+theorem multiplier_refine (a b : ℕ → ℝ) (B : ℕ) (K : ℕ → Cx ℝ) (N r n : ℕ) (hr : 0 < r) :
+    multiplier a b B K (r * N) (r * n) = multiplier a b B K N n := by
+  simp only [multiplier]
+  refine Finset.sum_congr rfl (fun k _ => ?_)
+  rw [Nat.mul_left_comm k r n, E_refine N r _ hr]
+
+theorem trigPoly_refine (a b : ℕ → ℝ) (B N r j : ℕ) (hr : 0 < r) :
+    trigPoly a b B (r * N) (r * j) = trigPoly a b B N j := by
+  simp only [trigPoly, sumTo_eq]
+  refine Finset.sum_congr rfl (fun p _ => ?_)
+  rw [Nat.mul_left_comm p r j, ang_refine N r _ hr]
 
 end TPV.Fourier
